@@ -428,7 +428,13 @@ def same_outcome(x, y, tol, overflow=False):
         if tol == 0.0 and not overflow:
             return ref.same_exact(x, y)
         with np.errstate(all="ignore"):
-            ok = (np.abs(x - y) <= tol) | (x == y) | (np.isnan(x) & np.isnan(y))
+            # the product of the operands' magnitudes (tolerance()) under- or overflows for operands of extreme
+            # dynamic range (1e+200 values times 1e-200 factors) and includes factors the operation does not use, so
+            # the bound also carries a term relative to the largest entry of the results themselves (a sum of
+            # products cannot be more accurate than 1e-12 of its own size here: >= 64 * cells * eps for <= 70 cells)
+            fin = [np.abs(a[np.isfinite(a)]) for a in (np.asarray(x, dtype=float), np.asarray(y, dtype=float))]
+            big = max([float(a.max()) for a in fin if a.size] + [0.0])
+            ok = (np.abs(x - y) <= tol + 1e-12 * big) | (x == y) | (np.isnan(x) & np.isnan(y))
             if overflow:
                 ok = ok | ~np.isfinite(x) | ~np.isfinite(y)
             return bool(np.all(ok))
